@@ -47,7 +47,7 @@ From MWF Require Import Base.Str Gen.SchedTables Sched.Manuals Sched.Parse.
 Import ListNotations.
 """
 
-QUICK = {"slurm": 500, "lsf": 350, "exotic": 150, "small": 250}
+QUICK = {"slurm": 420, "lsf": 300, "exotic": 130, "small": 220}
 THOROUGH = {"slurm": 7000, "lsf": 5000, "exotic": 2000, "small": None}
 
 SHARD = 120
@@ -839,6 +839,17 @@ def run(ck):
                       "codes, returned dict); non-trivial = non-empty id list and (some state returned, or an "
                       "exception, or a non-OK code)")
     ck.cov["traces_validated_against_impl"] = total
+    ck.notes["theorem_status"] = (
+        "all theorems of Props/C16.v complete (no _partial): tables (only_success, alive_not_terminal, LSF exit "
+        "refinement), return codes for ANY text (C16_rc, C16_rc_slurm), unbounded printer/parser round trips for "
+        "squeue, sacct, check_jobs(slurm) and bjobs by induction over rows, monitors hold of the model "
+        "(C16_monitor_*, C16_monitors_as_run = the functions applied here to the implementation's answers). "
+        "C16_graph_ignores (None / non-terminal states leave the graph's sets unchanged) belongs to the Exec model (C20).")
+    ck.notes["explicit_hypotheses"] = (
+        "wf_squeue / wf_sacct / wf_bjobs: fields are non-empty tokens without white space (bjobs: no '|' / newline, "
+        "no white space at either end), padding is non-newline white space; wf_joblist: no empty id. Justified for "
+        "queried jobs by slurmscriptadapter.py: job-name = step.name.replace(' ', '_'). Non-well-formed texts are "
+        "covered by the correspondence run only (exotic stream) and by C16_rc / C16_rc_slurm.")
     ck.cov["input_distribution"] = hist
     return ck.finish(search=lambda: search(ck, impl, M))
 
